@@ -609,6 +609,10 @@ func (s Subtitles) WriteToWebVTT(o io.Writer) (err error) {
 				c = append(c, bytesSpace...)
 				c = append(c, []byte("vertical:"+item.Style.InlineStyle.WebVTTVertical)...)
 			}
+		} else if item.Region != nil {
+			// An item without inline style can still refer to a region
+			c = append(c, bytesSpace...)
+			c = append(c, []byte("region:"+item.Region.ID)...)
 		}
 
 		// Add new line
